@@ -1,2 +1,70 @@
 import BGV
-/-! `#print axioms` for every property theorem; sections are read by vlib/core.py -/
+/-! `#print axioms` for every property theorem; `-- Cxx` section markers are read by vlib/core.py -/
+
+-- C01
+#print axioms BGV.C01_inv_reachable
+#print axioms BGV.C01_refines
+#print axioms BGV.C01_hasEdge
+#print axioms BGV.C01_outNeighbours
+#print axioms BGV.C01_outDegree
+#print axioms BGV.C01_edgeNumber
+#print axioms BGV.C01_readd_noop
+#print axioms BGV.C01_remove_absent_noop
+#print axioms BGV.C01_resize_keeps
+
+-- C03
+#print axioms BGV.C03_entry_iff_edge
+#print axioms BGV.C03_getEdgeLabel
+#print axioms BGV.C03_hasEdgeL
+#print axioms BGV.C03_add_present_keeps_label
+#print axioms BGV.C03_recreate_shows_new_label
+
+-- C07
+#print axioms BGV.C07_dAddEdge
+#print axioms BGV.C07_dAddReciprocalEdge
+#print axioms BGV.C07_dRemoveEdge
+#print axioms BGV.C07_dSetEdgeLabel
+#print axioms BGV.C07_dRemoveVertex
+#print axioms BGV.C07_dHasEdge
+#print axioms BGV.C07_dHasEdgeL
+#print axioms BGV.C07_dGetEdgeLabel
+#print axioms BGV.C07_getOutNeighbours
+#print axioms BGV.C07_dGetInDegree
+#print axioms BGV.C07_dGetOutDegree
+#print axioms BGV.C07_resize_smaller
+#print axioms BGV.C07_dSetEdgeLabel_missing
+#print axioms BGV.C07_dGetEdgeLabel_missing
+#print axioms BGV.C07_uAddEdge
+#print axioms BGV.C07_uRemoveEdge
+#print axioms BGV.C07_uSetEdgeLabel
+#print axioms BGV.C07_uRemoveVertex
+#print axioms BGV.C07_uHasEdge
+#print axioms BGV.C07_uGetEdgeLabel
+#print axioms BGV.C07_uGetDegree
+#print axioms BGV.C07_uSetEdgeLabel_missing
+#print axioms BGV.C07_dAddMultiedge
+#print axioms BGV.C07_dAddReciprocalMultiedge
+#print axioms BGV.C07_dRemoveMultiedge
+#print axioms BGV.C07_dSetEdgeMultiplicity
+#print axioms BGV.C07_dGetEdgeMultiplicity
+#print axioms BGV.C07_mdRemoveVertex
+#print axioms BGV.C07_uAddMultiedge
+#print axioms BGV.C07_uRemoveMultiedge
+#print axioms BGV.C07_uSetEdgeMultiplicity
+#print axioms BGV.C07_uGetEdgeMultiplicity
+#print axioms BGV.C07_muRemoveVertex
+#print axioms BGV.C07_mResize_smaller
+#print axioms BGV.C07_wdAddEdge
+#print axioms BGV.C07_wdAddReciprocalEdge
+#print axioms BGV.C07_wdRemoveEdge
+#print axioms BGV.C07_wdSetEdgeWeight
+#print axioms BGV.C07_wdGetEdgeWeight
+#print axioms BGV.C07_wdRemoveVertex
+#print axioms BGV.C07_wuAddEdge
+#print axioms BGV.C07_wuRemoveEdge
+#print axioms BGV.C07_wuSetEdgeWeight
+#print axioms BGV.C07_wuGetEdgeWeight
+#print axioms BGV.C07_wuRemoveVertex
+#print axioms BGV.C07_subLoop_oor_head
+#print axioms BGV.C07_rejected_unchanged
+#print axioms BGV.C07_history
